@@ -30,11 +30,13 @@ if TYPE_CHECKING:
 
 def _charger_can_serve(station, charger_id: ChargerId, vehicle, env: Environment) -> bool:
     """
-    false only when the station has this charger type and the vehicle's powertrain cannot use it
+    false when the station does not have this charger type, or the vehicle's powertrain cannot use it
     """
     mechatronics = env.mechatronics.get(vehicle.mechatronics_id)
     charger_state = station.state.get(charger_id)
-    if mechatronics is None or charger_state is None:
+    if charger_state is None:
+        return False
+    if mechatronics is None:
         return True
     return mechatronics.valid_charger(charger_state.charger)
 
@@ -105,9 +107,10 @@ class DispatchStation(VehicleState):
             # already waiting in this very queue: the plug is granted by the queue, in order of arrival
             return None, None
         elif not _charger_can_serve(station, self.charger_id, vehicle, env):
-            # a plug of a type this vehicle cannot use (a battery vehicle at a gas pump, a combustion vehicle at an
-            # electric plug): neither plugging in nor queueing would ever succeed and the vehicle would be stuck at
-            # the station, so the dispatch is refused
+            # a plug type the station does not have, or one this vehicle cannot use (a battery vehicle at a gas
+            # pump, a combustion vehicle at an electric plug): neither plugging in nor queueing would ever succeed
+            # and the vehicle would be stuck at the station (or wait in a queue the station does not count), so
+            # the dispatch is refused
             return None, None
         elif station.geoid == vehicle.geoid:
             # already there!
